@@ -525,6 +525,9 @@ impl Check for C18 {
     fn rule(&self) -> String {
         "tapes on (u64 -> bytes) and (&str -> bytes) tables pre-filled with 0..700 entries: lower_bound_mut/upper_bound_mut with every Bound kind on present and absent keys, then peek_next/peek_prev/next/prev, insert_before/insert_after with keys from the universe (in or out of order), computed to fit the gap, or equal to a neighbour, long ascending/descending buffered runs with values up to 2-3 pages, remove_next/remove_prev, close() or drop, commit/reopen; read-only Cursor scripts on the Table inside the transaction and on a ReadOnlyTable. Oracle: sorted vector + gap index: the gap after a seek is the partition point, every peek/move returns the model neighbour (key and value bytes), inserts are accepted iff prev < key < next in the model including pending inserts (else UnorderedKey and no change), removals return and delete the neighbour, after every close/drop a full forward+backward scan equals the model. Non-trivial: a buffered run of >= 2 pages' worth spliced at an inner gap of a height >= 2 tree followed by a move; distinct by hash of counters, family, page size, final keys.".into()
     }
+    fn fuzz_runs(&self) -> u64 {
+        300_000
+    }
     fn plan(&self, tier: Tier) -> Plan {
         Plan { cases: tier.pick(8_000, 400_000), max_recs: 120, max_shrink_iters: 4000, workers: 16 }
     }
